@@ -763,6 +763,25 @@ def gen_seq_list(rng):
         out.append({"spec": spec, "mode": rng.choice(["abs", "rel", "both", f"insert:{rng.randrange(1, 1 << 20)}"])})
         if rng.random() < 0.25:
             out[-1]["hist"] = [_gen_hist_op(rng, ch) for _ in range(rng.randrange(1, 4))]
+    if n >= 2 and rng.random() < 0.1:
+        # "conductor track": one sequence without notes that only carries signatures, restating one at regular distances
+        # (A at d, A again at 2d - as bar-wise exports do), while another sequence changes that signature in between
+        c, o = rng.sample(range(n), 2)
+        d = rng.choice([24, 48, 96, 6 * rng.randrange(1, 30)])
+        e = rng.randrange(1, d)
+        for q in out:
+            q["spec"]["tsigs"], q["spec"]["keys"] = [], []
+        cs = out[c]["spec"]
+        cs["notes"], cs["progs"], cs["ccs"], cs["tail"] = [], [], [], rng.choice([0, 0, 24])
+        out[c].pop("hist", None)
+        if rng.random() < 0.6:
+            a, b = rng.sample([(4, 4), (3, 4), (2, 4), (6, 8), (5, 4), (7, 8)], 2)
+            cs["tsigs"] = [[d, *a], [2 * d, *a]] + ([[3 * d, *a]] if rng.random() < 0.3 else [])
+            out[o]["spec"]["tsigs"] = [[d + e, *b]]
+        else:
+            a, b = rng.sample(music.KEYS, 2)
+            cs["keys"] = [[d, a], [2 * d, a]]
+            out[o]["spec"]["keys"] = [[d + e, b]]
     return out
 
 
@@ -1128,6 +1147,10 @@ def gen_c13_file(rng, tier):
     owners = [("g", gi) for gi in range(len(groups))] + [("t", t) for t in range(ntracks) if t not in group_of]
     for kind, oid in owners:
         members = groups[oid] if kind == "g" else [oid]
+        # "canon": one track of the group plays a phrase, another one repeats exactly that phrase later (an echo, a loop laid
+        # out on two tracks) - two tracks that are equal note for note except for WHEN they play
+        canon = kind == "g" and len(members) >= 2 and rng.random() < 0.12
+        canon_from = len(tracks[members[0]])
         last_end = {}
         chans = [rng.randrange(0, 16) for _ in range(rng.choice([1, 1, 2]))]
         pitches = sorted({rng.randrange(21, 109) for _ in range(rng.randrange(1, 5))})
@@ -1140,7 +1163,7 @@ def gen_c13_file(rng, tier):
             on = max(pos, last_end.get((ch, p), 0))
             dur = min_len + rng.choice([0, 1, rng.randrange(0, 2 * tpb + 1)])
             vel = rng.randrange(1, 128)
-            tr = rng.choice(members)
+            tr = members[0] if canon else rng.choice(members)
             as_on0 = rng.random() < 0.4
             tracks[tr].append({"tick": on, "k": "on", "ch": ch, "pitch": p, "vel": vel})
             tracks[tr].append({"tick": on + dur, "k": "off", "ch": ch, "pitch": p, "as_on0": as_on0, "vel": rng.choice([0, 64])})
@@ -1148,6 +1171,11 @@ def gen_c13_file(rng, tier):
             # notes may legitimately round to different ticks, the notes then overlap by one tick and are fused - the
             # *sounding set* is still the union, but a note-by-note comparison would raise a false alarm (it did, once)
             last_end[(ch, p)] = on + dur + min_len
+        if canon:
+            phrase = tracks[members[0]][canon_from:]
+            if phrase:
+                shift = max(e["tick"] for e in phrase) + min_len + rng.randrange(0, 2 * tpb + 1)
+                tracks[members[1]].extend(dict(e, tick=e["tick"] + shift) for e in phrase)
         if rng.random() < 0.2:
             # "grace notes and trills": very short (0 .. 2 library ticks), touching and re-struck notes on a (channel, pitch) of
             # their own. What they load as is not judged (a zero-length or fused note has no defined reading); they are there
